@@ -224,7 +224,7 @@ structure World where
   head : FMap Entry
   index : FMap IEntry
   wd : FMap WFile
-  deriving Repr
+  deriving Repr, DecidableEq
 
 /-- Scenario constants: blob sizes and HEAD's commit time (seconds), used by `unstage`. -/
 structure Env where
@@ -407,6 +407,9 @@ def unstage (env : Env) (w : World) (p : Path) : Except WErr World :=
 def rmCached (w : World) (p : Path) : Except WErr World :=
   if w.index.has p then .ok { w with index := w.index.erase p } else .error .key
 
+/-- Deleting `.git/index`. -/
+def clearIndex (w : World) : World := ⟨w.head, [], w.wd⟩
+
 def treeOf (index : FMap IEntry) : FMap Entry := index.map (fun kv => (kv.1, kv.2.entry))
 
 /-! ### fresh checkout (`build_index_from_tree` into an empty directory) -/
@@ -451,21 +454,32 @@ def sortPaths (ps : List Path) : List Path := ps.foldr insertPath []
 
 def isLink (k : Kind) : Bool := k == .symlink
 
-/-- `tree_changes(store, a, b)` for flattened trees: walk order; a change of file type
-(`S_IFMT`) is reported as delete + add. -/
-def changes (a b : FMap Entry) : List Change :=
-  (sortPaths (a.keys ++ b.keys)).flatMap (fun p =>
-    match a.get p, b.get p with
-    | some x, some y =>
-      if x = y then []
-      else if isLink x.kind != isLink y.kind then [.delete p x, .add p y]
-      else [.modify p x y]
-    | some x, none => [.delete p x]
-    | none, some y => [.add p y]
-    | none, none => [])
+def dedupPaths : List Path → List Path
+  | [] => []
+  | p :: r => if p ∈ r then dedupPaths r else p :: dedupPaths r
 
-/-- `_check_file_matches` for a regular file on disk (mode first, then size and content). -/
-def fileMatches (f : WFile) (e : Entry) : Bool := decide (f.kind = e.kind) && f.cid == e.cid
+/-- The changes `tree_changes` reports at one path; a change of file type (`S_IFMT`) is reported as
+delete + add. -/
+def changesAt (a b : FMap Entry) (p : Path) : List Change :=
+  match a.get p, b.get p with
+  | some x, some y =>
+    if x = y then []
+    else if isLink x.kind != isLink y.kind then [.delete p x, .add p y]
+    else [.modify p x y]
+  | some x, none => [.delete p x]
+  | none, some y => [.add p y]
+  | none, none => []
+
+/-- The paths of both trees, each once, in walk order. -/
+def changedPathOrder (a b : FMap Entry) : List Path := sortPaths (dedupPaths (a.keys ++ b.keys))
+
+/-- `tree_changes(store, a, b)` for flattened trees. -/
+def changes (a b : FMap Entry) : List Change := (changedPathOrder a b).flatMap (changesAt a b)
+
+/-- `_check_file_matches` for a regular file on disk: the permission bits first — both sides reduced to
+0o644 / 0o755, which makes a symbolic-link entry count as 0o644 —, then size and content. -/
+def fileMatches (f : WFile) (e : Entry) : Bool :=
+  ((f.kind == .executable) == (e.kind == .executable)) && f.cid == e.cid
 
 /-- `verify_leading_dirs(path, [], root)`: a leading component that is a symbolic link. -/
 def hasLinkAncestor (wd : FMap WFile) (p : Path) : Bool :=
@@ -520,16 +534,19 @@ def applyChanges (obs : Obs) : WT → List Change → WT × Option WErr
     | .ok s' => applyChanges obs s' cs
     | .error e => (s, some e)
 
+/-- The change writes a file below `p`. -/
+def writesBelow (p : Path) : Change → Bool
+  | .add q _ => isAncestor p q
+  | .modify q _ _ => isAncestor p q
+  | .delete _ _ => false
+
 /-- "paths becoming directories" pre-check of `update_working_tree`. -/
 def preCheckDirs (wd : FMap WFile) (chs : List Change) : Except WErr Unit :=
   chs.foldl (fun acc ch =>
     match acc, ch with
     | .error e, _ => .error e
     | .ok (), .delete p old =>
-      if chs.any (fun c => match c with
-          | .add q _ => isAncestor p q
-          | .modify q _ _ => isAncestor p q
-          | .delete _ _ => false) then
+      if chs.any (writesBelow p) then
         match lstatView wd p with
         | .enotdir => .error .osError
         | .file f => if !isLink f.kind && !fileMatches f old then .error .osError else .ok ()
@@ -537,19 +554,21 @@ def preCheckDirs (wd : FMap WFile) (chs : List Change) : Except WErr Unit :=
       else .ok ()
     | .ok (), _ => .ok ()) (.ok ())
 
+/-- The file at `p`, if it is a regular file, still is what the old tree says (`_check_file_matches`). -/
+def checkUnmodified (wd : FMap WFile) (p : Path) (old : Entry) : Except WErr Unit :=
+  if !validPath p then .ok ()
+  else match lstatView wd p with
+    | .enotdir => .error .osError
+    | .file f => if !isLink f.kind && !fileMatches f old then .error .modified else .ok ()
+    | _ => .ok ()
+
 /-- "uncommitted modifications" pre-check of `update_working_tree` (`allow_overwrite_modified=False`). -/
 def preCheckModified (wd : FMap WFile) (chs : List Change) : Except WErr Unit :=
   chs.foldl (fun acc ch =>
-    let chk (p : Path) (old : Entry) : Except WErr Unit :=
-      if !validPath p then .ok ()
-      else match lstatView wd p with
-        | .enotdir => .error .osError
-        | .file f => if !isLink f.kind && !fileMatches f old then .error .modified else .ok ()
-        | _ => .ok ()
     match acc, ch with
     | .error e, _ => .error e
-    | .ok (), .delete p old => chk p old
-    | .ok (), .modify p old _ => chk p old
+    | .ok (), .delete p old => checkUnmodified wd p old
+    | .ok (), .modify p old _ => checkUnmodified wd p old
     | .ok (), .add _ _ => .ok ()) (.ok ())
 
 /-- `_check_uncommitted_changes(repo, target, force=False)`. -/
